@@ -17,7 +17,7 @@ import (
 func TestMain(m *testing.M) { vt.Main(m, "C15") }
 
 // statement kinds
-var kinds = []string{"mark", "defer", "deferIfT", "deferIfF", "deferRaise", "ret", "retIfT", "retIfF", "raise", "fail", "assignDefer", "deferCall", "deferErrVal"}
+var kinds = []string{"mark", "defer", "deferIfT", "deferIfF", "deferRaise", "ret", "retIfT", "retIfF", "raise", "fail", "assignDefer", "deferCall", "deferErrVal", "deferIfVarT", "deferIfVarF"}
 
 var truthyGuards = []string{"1", "true", `"x"`, "[0]", "'s", "2.5", "{a: 1}"}
 var falsyGuards = []string{"0", "false", `""`, "[]", "nil", "0.0", "{}"}
@@ -30,8 +30,9 @@ type stmt struct {
 }
 
 type fn struct {
-	Name  string `json:"name"`
-	Stmts []stmt `json:"stmts"`
+	Name   string `json:"name"`
+	Stmts  []stmt `json:"stmts"`
+	asIter bool
 }
 
 func (f *fn) src() string {
@@ -46,6 +47,12 @@ func (f *fn) src() string {
 			parts = append(parts, fmt.Sprintf(`defer "d%d".p if %s`, s.ID, s.Guard))
 		case "deferRaise":
 			parts = append(parts, fmt.Sprintf(`defer {|| "d%d".p; raise TypeErr.new("dr%d")}()`, s.ID, s.ID))
+		case "deferRaiseOnce": // raises only in the first evaluation of the body (n counts the evaluations of an iterator body)
+			parts = append(parts, fmt.Sprintf(`defer {|| "d%d".p; raise TypeErr.new("dr%d") if n == 1}()`, s.ID, s.ID))
+		case "deferIfVarT": // the guard is decided when the defer statement is reached, not when the function ends
+			parts = append(parts, fmt.Sprintf(`g%d := 1; defer "d%d".p if g%d; g%d := 0`, s.ID, s.ID, s.ID, s.ID))
+		case "deferIfVarF":
+			parts = append(parts, fmt.Sprintf(`g%d := 0; defer "d%d".p if g%d; g%d := 1`, s.ID, s.ID, s.ID, s.ID))
 		case "assignDefer": // the deferred expression reads a variable assigned later: it must see the final value
 			parts = append(parts, fmt.Sprintf(`v%d := 1; defer "d%d-#{v%d}".p; v%d := 2`, s.ID, s.ID, s.ID, s.ID))
 		case "deferCall": // the deferred expression is a call of a function that has defers (and calls) of its own
@@ -64,8 +71,29 @@ func (f *fn) src() string {
 			parts = append(parts, s.Sub.Name+"()")
 		}
 	}
-	return fmt.Sprintf("%s := {|| %s}", f.Name, strings.Join(parts, "; "))
+	params := ""
+	if f.counts() {
+		// the body counts its own evaluations in n (an iterator body that does not recur keeps its variables)
+		params = "n"
+		parts = append([]string{"n := n + 1"}, parts...)
+	}
+	if f.asIter {
+		return fmt.Sprintf("%s := <{|%s| %s}>", f.Name, params, strings.Join(parts, "; "))
+	}
+	return fmt.Sprintf("%s := {|%s| %s}", f.Name, params, strings.Join(parts, "; "))
 }
+
+func (f *fn) counts() bool {
+	for _, s := range f.Stmts {
+		if s.Kind == "deferRaiseOnce" {
+			return true
+		}
+	}
+	return false
+}
+
+// modelRun is the number of the evaluation of the top body being modelled (2 only for the second next of an iterator).
+var modelRun = 1
 
 func (f *fn) all(out *[]*fn) {
 	for _, s := range f.Stmts {
@@ -86,14 +114,19 @@ loop:
 		case "mark":
 			*out = append(*out, fmt.Sprintf("m%d", s.ID))
 			val = "nil"
-		case "defer", "deferIfT", "deferRaise", "assignDefer", "deferCall", "deferErrVal":
+		case "defer", "deferIfT", "deferRaise", "assignDefer", "deferCall", "deferErrVal", "deferIfVarT", "deferRaiseOnce":
 			defers = append(defers, s)
 			val = "nil" // a defer statement has no value of its own
 			if s.Kind == "assignDefer" {
 				val = "2"
 			}
+			if s.Kind == "deferIfVarT" {
+				val = "0"
+			}
 		case "deferIfF":
 			val = "nil"
+		case "deferIfVarF":
+			val = "1"
 		case "ret", "retIfT":
 			val = fmt.Sprint(s.ID)
 			break loop
@@ -128,7 +161,7 @@ loop:
 		default:
 			*out = append(*out, fmt.Sprintf("d%d", d.ID))
 		}
-		if d.Kind == "deferRaise" {
+		if d.Kind == "deferRaise" || (d.Kind == "deferRaiseOnce" && modelRun == 1) {
 			// a deferred expression that raises replaces the outcome and stops the remaining defers
 			return "", fmt.Sprintf("TypeErr: dr%d", d.ID)
 		}
@@ -141,27 +174,46 @@ loop:
 
 type Case struct {
 	Top     *fn    `json:"top"`
+	Iter    bool   `json:"iter,omitempty"` // the top body is an iterator literal advanced twice by next (first outcome held by try)
 	Src     string `json:"src,omitempty"`
 	WantOut string `json:"want_out,omitempty"`
 	WantRes string `json:"want_res,omitempty"`
 	Got     string `json:"got,omitempty"`
 }
 
-func program(top *fn) string {
+func program(top *fn, iter bool) string {
 	fns := []*fn{}
 	top.all(&fns)
 	lines := []string{}
+	top.asIter = iter
 	for _, f := range fns {
 		lines = append(lines, f.src())
 	}
-	lines = append(lines, `"pre".p`, "res := "+top.Name+"()", `"post".p`, "res")
+	top.asIter = false
+	arg := ""
+	if top.counts() {
+		arg = "0"
+	}
+	if iter {
+		lines = append(lines, `"pre".p`, "it := "+top.Name+".new("+arg+")", "first := 1.try.{|x| it.next}", `"sep".p`, "res := it.next", `"post".p`, "res")
+	} else {
+		lines = append(lines, `"pre".p`, "res := "+top.Name+"("+arg+")", `"post".p`, "res")
+	}
 	return strings.Join(lines, "\n")
 }
 
 func judge(c *Case) (sig, detail string) {
-	c.Src = program(c.Top)
+	c.Src = program(c.Top, c.Iter)
 	want := []string{"pre"}
+	modelRun = 1
+	if c.Iter {
+		// every next evaluates the body afresh: the defers of the first run (also a raising one) belong to that run only
+		model(c.Top, &want)
+		want = append(want, "sep")
+		modelRun = 2
+	}
 	v, e := model(c.Top, &want)
+	modelRun = 1
 	c.WantRes = v
 	if e == "" {
 		want = append(want, "post")
@@ -218,7 +270,7 @@ func nontrivial(top *fn) bool {
 		seenDefer, seenExit := false, false
 		for _, s := range f.Stmts {
 			switch s.Kind {
-			case "defer", "deferIfT", "deferRaise", "deferIfF", "assignDefer", "deferCall", "deferErrVal":
+			case "defer", "deferIfT", "deferRaise", "deferIfF", "assignDefer", "deferCall", "deferErrVal", "deferIfVarT", "deferIfVarF", "deferRaiseOnce":
 				if s.Kind == "deferCall" && seenDefer {
 					return true // a deferred call beside other defers
 				}
@@ -245,7 +297,23 @@ func nontrivial(top *fn) bool {
 }
 
 func run(t vt.Failer, top *fn, fatal bool) {
-	c := Case{Top: top}
+	runCase(t, Case{Top: top}, fatal)
+	if hasDefer(top) {
+		runCase(t, Case{Top: top, Iter: true}, fatal)
+	}
+}
+
+func hasDefer(f *fn) bool {
+	for _, s := range f.Stmts {
+		if strings.HasPrefix(s.Kind, "defer") || s.Kind == "assignDefer" {
+			return true
+		}
+	}
+	return false
+}
+
+func runCase(t vt.Failer, c Case, fatal bool) {
+	top := c.Top
 	sig, detail := judge(&c)
 	vt.Eval()
 	last := "empty"
@@ -253,6 +321,9 @@ func run(t vt.Failer, top *fn, fatal bool) {
 		last = top.Stmts[n-1].Kind
 	}
 	vt.Class("top-level body ends with " + last)
+	if c.Iter {
+		vt.Class("body as an iterator literal advanced twice")
+	}
 	if nontrivial(top) {
 		vt.NonTrivial(c.Src, func() any {
 			return map[string]string{"program": c.Src, "expected_output": c.WantOut, "expected_result": c.WantRes}
@@ -301,7 +372,7 @@ func TestAllSmallLayouts(t *testing.T) {
 			}
 			return
 		}
-		for _, kd := range kinds {
+		for _, kd := range append(append([]string{}, kinds...), "deferRaiseOnce") {
 			rec(append(prefix, mkStmt(kd, len(prefix)+1+k%7)), n)
 		}
 	}
@@ -359,6 +430,12 @@ func TestRandomBodies(t *testing.T) {
 	vt.Check(t, vt.N(8000, 800000), func(rt *rapid.T) {
 		counter, names := 0, 0
 		top := genFn(rt, rapid.IntRange(0, 3).Draw(rt, "depth"), &counter, &names)
+		if rapid.IntRange(0, 3).Draw(rt, "raise once") == 0 {
+			// a deferred expression of the top body that raises in its first evaluation only
+			counter++
+			at := rapid.IntRange(0, len(top.Stmts)).Draw(rt, "at")
+			top.Stmts = append(top.Stmts[:at], append([]stmt{{Kind: "deferRaiseOnce", ID: counter}}, top.Stmts[at:]...)...)
+		}
 		run(rt, top, true)
 	})
 }
